@@ -1,0 +1,23 @@
+//go:build verif
+// +build verif
+
+package matcher
+
+import "github.com/jawher/mow.cli/internal/container"
+
+// VerifDescribe exposes the kind of a matcher and the containers it refers to (verification hook, build tag verif)
+func VerifDescribe(m Matcher) (kind string, cons []*container.Container) {
+	switch x := m.(type) {
+	case *arg:
+		return "arg", []*container.Container{x.arg}
+	case *opt:
+		return "opt", []*container.Container{x.theOne}
+	case *options:
+		return "grp", append([]*container.Container{}, x.options...)
+	case optsEnd:
+		return "end", nil
+	case shortcut:
+		return "eps", nil
+	}
+	return "other", nil
+}
